@@ -14,6 +14,7 @@
 -/
 import PopsModel.Lemmas.Raster
 import PopsModel.Lemmas.RasterEffects
+import PopsModel.Model.RasterF31
 namespace Pops
 open Heap
 
@@ -388,5 +389,259 @@ def C19_demo : List (HOp Int) :=
 example : ∃ h', (Heap.init [[1, 2, 3, 4, 5, 6]]).run C19_demo = .ok h' ∧
     h'.ext 0 = some [7, 14, 21, 28, 35, 693] ∧ (∀ s, s < 6 → h'.slots s = none) := by
   refine ⟨_, rfl, by decide, by decide⟩
+
+/-! ## Finding F31: assignment INTO a raster that wraps caller memory
+
+  `C19_wrap_writes_through` above carries the hypothesis `∀ op ∈ ops, op.reseats s = false`. The
+  property quantifies over "every sequence of copy, move and assignment", so the continuation may
+  assign to the wrapper, and there the header (raster.hpp:250-275) does not do what the sentence says:
+  `w = x` gives `w` a new buffer, keeps `owns_ == false` (the buffer is never released) and the caller's
+  array is no longer written; `w = std::move(x)` makes `w` hold `x`'s storage. The heap model mirrors
+  the header, so the full statement is **refuted** here, and `C19_wrap_writes_through` stays as the
+  proved part; its hypothesis excludes exactly the continuations that rebind the wrapper, of which the
+  assignments into it (`Heap.f31Region`, Model/RasterF31.lean) are the open finding F31.
+  (The three lemmas `Heap.writePtr_live`, `Heap.leaked_step`, `Heap.leaked_run` are helpers of
+  `C19_assign_into_wrapper_leaks`.) -/
+
+/-- Buffer `b` is allocated, is not a caller array, and no raster pointing to it owns it. -/
+structure Heap.Leaked {α : Type} (h : Heap α) (b : Nat) : Prop where
+  live : Live h b
+  notExt : h.nExt ≤ b
+  old : b < h.next
+  unowned : Unowned h b
+
+theorem Heap.writePtr_live {α : Type} {h h' : Heap α} (hi : Inv h) {op : HOp α} (st : Steps h op h') {p : Nat}
+    (hw : h.writePtr op = some p) : Live h' p := by
+  cases st with
+  | write s r c v o b cells hs hd hb _ _ _ =>
+    have e : b = p := by simpa [writePtr, hs, hd] using hw
+    subst e; exact ⟨_, by simp only [pokeOf, upd_same]; rfl⟩
+  | extWrite e i v cells _ hb _ =>
+    have e' : e = p := by simpa [writePtr] using hw
+    subst e'; exact ⟨_, by simp only [pokeOf, upd_same]; rfl⟩
+  | mapInPlace s f o b cells hs hd hb _ =>
+    have e : b = p := by simpa [writePtr, hs, hd] using hw
+    subst e; exact ⟨_, by simp only [storeOf, upd_same]; rfl⟩
+  | zipThrow s t f o o2 hs _ _ =>
+    have e : o.data = some p := by simpa [writePtr, hs] using hw
+    obtain ⟨_, cells, hc, _⟩ := hi.no_dangling s o p hs e
+    exact ⟨cells, hc⟩
+  | zipInPlace s t f o o2 b b2 cells cells2 hs _ _ hd _ _ _ _ _ =>
+    have e : b = p := by simpa [writePtr, hs, hd] using hw
+    subst e; exact ⟨_, by simp only [storeOf, upd_same]; rfl⟩
+  | _ => simp [writePtr] at hw
+
+theorem Heap.leaked_step {α : Type} {h h' : Heap α} (hi : Inv h) {op : HOp α} (st : Steps h op h') {b : Nat}
+    (hl : Leaked h b) : Leaked h' b := by
+  obtain ⟨c1, c2⟩ := counters_frame st
+  refine ⟨?_, by rw [c1]; exact hl.notExt, by have := hl.old; omega, ?_⟩
+  · rcases bufs_frame st b with g | g | g | ⟨u, o, _, g2, g3, g4⟩
+    · obtain ⟨cells, hc⟩ := hl.live; exact ⟨cells, by rw [g, hc]⟩
+    · have := hl.old; omega
+    · exact writePtr_live hi st g
+    · have := hl.unowned u o g2 g3; rw [this] at g4; cases g4
+  · intro u o' hu hp
+    have keep : h.slots u = some o' → o'.owns = false := fun hk => hl.unowned u o' hk hp
+    have alloc_case : ∀ (h0 : Heap α) (d r c : Nat) (cells : List α) (w : Bool),
+        h0.slots = h.slots → h0.next = h.next →
+        (h0.allocInto d r c cells w).slots u = some o' → o'.owns = false := by
+      intro h0 d r c cells w e1 e2 hk
+      simp only [allocInto] at hk
+      by_cases e : u = d
+      · subst e
+        simp only [upd_same, Option.some.injEq] at hk
+        subst hk
+        simp only [Option.some.injEq] at hp
+        have := hl.old; omega
+      · rw [upd_ne _ _ e, e1] at hk; exact keep hk
+    have move_case : ∀ (h0 : Heap α) (s t : Nat) (o : RObj), h0.slots = h.slots → h.slots t = some o →
+        (h0.moveOf s t o).slots u = some o' → o'.owns = false := by
+      intro h0 s t o e1 ht hk
+      simp only [moveOf] at hk
+      by_cases e : u = t
+      · subst e
+        simp only [setSlot_same, Option.some.injEq] at hk
+        subst hk; simp at hp
+      · rw [setSlot_ne _ _ e] at hk
+        by_cases e2 : u = s
+        · subst e2
+          simp only [setSlot_same, Option.some.injEq] at hk
+          subst hk
+          exact hl.unowned t o ht hp
+        · rw [setSlot_ne _ _ e2, e1] at hk; exact keep hk
+    cases st with
+    | construct s r c v => exact alloc_case h s r c _ true rfl rfl hu
+    | wrap s e r c he =>
+      by_cases e1 : u = s
+      · subst e1
+        simp only [setSlot_same, Option.some.injEq] at hu
+        subst hu
+        simp only [Option.some.injEq] at hp
+        have := hl.notExt; omega
+      · rw [setSlot_ne _ _ e1] at hu; exact keep hu
+    | copyCtor s t o b cells _ _ _ _ => exact alloc_case h s _ _ _ true rfl rfl hu
+    | moveCtor s t o _ ht => exact move_case h s t o rfl ht hu
+    | copySelf s => exact keep hu
+    | moveSelf s => exact keep hu
+    | copyAssign s t me o b cells h1 _ _ _ hr _ _ _ =>
+      obtain ⟨r1, r2, _, _⟩ := release_frame hr
+      exact alloc_case h1 s _ _ _ _ r1 r2 hu
+    | moveAssign s t me o h1 _ _ ht hr =>
+      obtain ⟨r1, _, _, _⟩ := release_frame hr
+      exact move_case h1 s t o r1 ht hu
+    | write s r c v o b cells _ _ _ _ _ _ => exact keep hu
+    | destroy s o h1 _ hr =>
+      obtain ⟨r1, _, _, _⟩ := release_frame hr
+      by_cases e1 : u = s
+      · subst e1; simp at hu
+      · rw [setSlot_ne _ _ e1, r1] at hu; exact keep hu
+    | extWrite e i v cells _ _ _ => exact keep hu
+    | mapInPlace s f o b cells _ _ _ _ => exact keep hu
+    | zipThrow s t f o o2 _ _ _ => exact keep hu
+    | zipInPlace s t f o o2 b b2 cells cells2 _ _ _ _ _ _ _ _ _ => exact keep hu
+    | mapNew d a f o b cells _ _ _ _ => exact alloc_case h d _ _ _ true rfl rfl hu
+    | zipNewThrow d a b f o o2 _ _ _ => exact keep hu
+    | zipNew d a b f o o2 p1 p2 cells cells2 _ _ _ _ _ _ _ _ _ => exact alloc_case h d _ _ _ true rfl rfl hu
+    | powNew d a f o b cells _ _ _ _ =>
+      have hu' : (h.allocInto d o.rows o.cols (cells.take o.size) true).slots u = some o' := hu
+      exact alloc_case h d _ _ _ true rfl rfl hu'
+
+theorem Heap.leaked_run {α : Type} {h h' : Heap α} (hi : Inv h) (ops : List (HOp α)) {b : Nat} (hl : Leaked h b)
+    (hr : h.run ops = .ok h') : Leaked h' b := by
+  induction ops generalizing h with
+  | nil => simp only [run] at hr; cases hr; exact hl
+  | cons op ops ih =>
+    obtain ⟨hs, h1, e1, r1⟩ := run_cons hr
+    exact ih (inv_of_step hi hs e1) (leaked_step hi (steps_of_step hi hs e1) hl) r1
+
+/-- F31, the leak. A copy assignment in the region of F31 (`s ≠ t`, the target does not own its
+    storage - e.g. it wraps a caller array), in any reachable state: the target then points to the
+    freshly allocated buffer `h.next`, shows the source's value there, still does not own it, and no
+    caller array received anything. That buffer is never released: it is allocated and without an
+    owner after **every** continuation (no destructor and no later assignment `delete[]`s it), and
+    after the destructor of `s` it is allocated with no variable pointing to it. -/
+theorem C19_assign_into_wrapper_leaks {α : Type} (h h1 : Heap α) (hi : Inv h) (s t : Nat)
+    (hreg : h.f31Region (.copyAssign s t) = true)
+    (hs : h.inScope (.copyAssign s t) = true) (he : h.step (.copyAssign s t) = .ok h1) :
+    (∃ r c, h1.slots s = some ⟨r, c, some h.next, false⟩) ∧ h1.orphan s = true ∧
+    h1.view s = h.view t ∧ (∀ e, e < h.nExt → h1.ext e = h.ext e) ∧
+    (∀ ops h2, h1.run ops = .ok h2 → Live h2 h.next ∧ Unowned h2 h.next) ∧
+    (∀ h2, h1.step (.destroy s) = .ok h2 → Live h2 h.next ∧ Unreachable h2 h.next) := by
+  have hne : s ≠ t := by
+    intro e; simp [f31Region, e] at hreg
+  have hno : h.nonOwning s = true := by
+    simp only [f31Region, Bool.and_eq_true] at hreg; exact hreg.2
+  obtain ⟨c1, _, _, c4⟩ := copy_effect hi (op := .copyAssign s t) (.inr ⟨rfl, hne⟩) hs he
+  have i1 := inv_of_step hi hs he
+  have st := steps_of_step hi hs he
+  cases st with
+  | copySelf => exact absurd rfl hne
+  | copyAssign _ _ me o b cells h0 _ g1 g2 g3 g4 g5 g6 =>
+    obtain ⟨r1, r2, r3, _⟩ := release_frame g3
+    have hown : me.owns = false := by
+      simp only [nonOwning, g1, Bool.not_eq_true'] at hno; exact hno
+    have hslot : (h0.allocInto s o.rows o.cols (cells.take o.size) me.owns).slots s =
+        some ⟨o.rows, o.cols, some h.next, false⟩ := by
+      simp only [allocInto, upd_same, r2, hown]
+    have hother : ∀ u, u ≠ s → (h0.allocInto s o.rows o.cols (cells.take o.size) me.owns).slots u = h.slots u := by
+      intro u hu; simp only [allocInto, upd_ne _ _ hu, r1]
+    have hext : h.nExt ≤ h.next := hi.ext_le
+    have hl : Leaked (h0.allocInto s o.rows o.cols (cells.take o.size) me.owns) h.next := by
+      refine ⟨⟨_, by simp only [allocInto, r2, upd_same]; rfl⟩, by simp only [allocInto, r3]; exact hext,
+        by simp only [allocInto, r2]; omega, ?_⟩
+      intro u o' hu hp
+      by_cases e : u = s
+      · subst e; rw [hslot] at hu; cases hu; rfl
+      · rw [hother u e] at hu
+        have := (hi.no_dangling u o' _ hu hp).1; omega
+    refine ⟨⟨_, _, hslot⟩, ?_, c1, fun e he' => by simp only [ext, c4 e he'], ?_, ?_⟩
+    · simp only [orphan, hslot, Bool.not_false, Bool.true_and, decide_eq_true_eq]
+      simp only [allocInto, r3]; exact hext
+    · intro ops h2 hr
+      have := leaked_run i1 ops hl hr
+      exact ⟨this.live, this.unowned⟩
+    · intro h2 hd
+      simp only [step, obj, hslot, release, bind, Except.bind] at hd
+      cases hd
+      refine ⟨?_, ?_⟩
+      · obtain ⟨cells', hc⟩ := hl.live; exact ⟨cells', by simpa [setSlot] using hc⟩
+      · intro u o' hu hp
+        by_cases e : u = s
+        · subst e; simp at hu
+        · rw [setSlot_ne _ _ e, hother u e] at hu
+          have := (hi.no_dangling u o' _ hu hp).1; omega
+
+/-- The statement of `C19_wrap_writes_through` with the hypothesis `∀ op ∈ ops, op.reseats s = false`
+    removed: the property's sentence over *every* continuation, assignments into the wrapper included. -/
+def C19_wrap_writes_through_full : Prop :=
+  ∀ (α : Type) (h h1 : Heap α), Inv h → ∀ (s e r c : Nat),
+    h.inScope (.wrap s e r c) = true → h.step (.wrap s e r c) = .ok h1 →
+    ∀ ops h2, h1.run ops = .ok h2 →
+      h2.slots s = some ⟨r, c, some e, false⟩ ∧
+      (∃ cells, h2.ext e = some cells ∧ r * c ≤ cells.length ∧ h2.view s = some ⟨r, c, cells.take (r * c)⟩) ∧
+      (∀ i j v h3, h2.inScope (.write s i j v) = true → h2.step (.write s i j v) = .ok h3 →
+        ∃ cells, h2.ext e = some cells ∧ i * c + j < cells.length ∧ h3.ext e = some (cells.set (i * c + j) v)) ∧
+      (∀ h3, h2.step (.destroy s) = .ok h3 → h3.ext e = h2.ext e ∧ ∃ cells, h3.ext e = some cells)
+
+/-- The witness of F31: `int b[6] = {1,..,6}; Raster w(b, 2, 3), x(2, 3, 7); w = x;` -/
+def C19_f31_witness : List (HOp Int) := [.wrap 0 0 2 3, .construct 1 2 3 7, .copyAssign 0 1]
+
+/-- It fails on `[wrap, construct, copyAssign into the wrapper, write]`: after `w = x` the write
+    `w(0, 0) = 9` is in scope and succeeds, and the caller's array still reads `1, 2, 3, 4, 5, 6`. -/
+theorem C19_wrap_writes_through_full_fails : ¬ C19_wrap_writes_through_full := by
+  intro H
+  obtain ⟨_, _, hw, _⟩ := H Int (Heap.init [[1, 2, 3, 4, 5, 6]]) _ (inv_init _) 0 0 2 3 rfl rfl
+    [.construct 1 2 3 7, .copyAssign 0 1] _ rfl
+  obtain ⟨cells, e1, _, e2⟩ := hw 0 0 9 _ rfl rfl
+  have e1' : some [1, 2, 3, 4, 5, 6] = some cells := e1
+  cases e1'
+  revert e2
+  decide
+
+/-- The same sentence restricted to what can be asked of a variable that still holds the raster:
+    over every continuation that neither destroys `s` nor moves from it (assignments INTO `s` are
+    allowed), a write through `s` lands in the caller's array. -/
+def C19_wrap_writes_through_over_assignments : Prop :=
+  ∀ (α : Type) (h h1 : Heap α), Inv h → ∀ (s e r c : Nat),
+    h.inScope (.wrap s e r c) = true → h.step (.wrap s e r c) = .ok h1 →
+    ∀ ops h2, (∀ op ∈ ops, op.vacates s = false) → h1.run ops = .ok h2 →
+      ∀ i j v h3, h2.inScope (.write s i j v) = true → h2.step (.write s i j v) = .ok h3 →
+        ∃ o cells, h2.slots s = some o ∧ h2.ext e = some cells ∧ h3.ext e = some (cells.set (i * o.cols + j) v)
+
+theorem C19_wrap_writes_through_over_assignments_fails : ¬ C19_wrap_writes_through_over_assignments := by
+  intro H
+  obtain ⟨o, cells, e0, e1, e2⟩ := H Int (Heap.init [[1, 2, 3, 4, 5, 6]]) _ (inv_init _) 0 0 2 3 rfl rfl
+    [.construct 1 2 3 7, .copyAssign 0 1] _ (by decide) rfl 0 0 9 _ rfl rfl
+  have e0' : some (⟨2, 3, some 2, false⟩ : RObj) = some o := e0
+  have e1' : some [1, 2, 3, 4, 5, 6] = some cells := e1
+  cases e0'; cases e1'
+  revert e2
+  decide
+
+/-- The move form, `w = std::move(x)`, is in the region as well: `w` ends up owning `x`'s buffer (so
+    nothing leaks: its destructor releases it once), the caller's array is dropped without notice and
+    the write `w(0, 0) = 9` does not reach it. -/
+example : ∃ h2 h3 : Heap Int, (Heap.init [[1, 2, 3, 4, 5, 6]]).run [.wrap 0 0 2 3, .construct 1 2 3 7] = .ok h2 ∧
+    h2.f31Region (.moveAssign 0 1) = true ∧ h2.run [.moveAssign 0 1, .write 0 0 0 9] = .ok h3 ∧
+    h3.slots 0 = some ⟨2, 3, some 1, true⟩ ∧ h3.orphan 0 = false ∧
+    h3.view 0 = some ⟨2, 3, [9, 7, 7, 7, 7, 7]⟩ ∧ h3.ext 0 = some [1, 2, 3, 4, 5, 6] :=
+  ⟨_, _, rfl, by decide, rfl, by decide, by decide, by decide, by decide⟩
+
+/-- What the witness run looks like. The assignment is in the region of F31 (`h1` is the state before
+    it); afterwards the wrapper shows the sevens in a buffer of its own (id 2) that it does not own, and
+    the caller's array received nothing; the write goes to that buffer; after the destructor the
+    buffer is still allocated and no variable points to it. -/
+theorem C19_f31_witness_run :
+    ∃ h1 h2 h3 h4, (Heap.init [[1, 2, 3, 4, 5, 6]]).run (C19_f31_witness.take 2) = .ok h1 ∧
+      h1.f31Region (.copyAssign 0 1) = true ∧ h1.inScope (.copyAssign 0 1) = true ∧
+      h1.step (.copyAssign 0 1) = .ok h2 ∧
+      h2.slots 0 = some ⟨2, 3, some 2, false⟩ ∧ h2.orphan 0 = true ∧
+      h2.view 0 = some ⟨2, 3, [7, 7, 7, 7, 7, 7]⟩ ∧ h2.ext 0 = some [1, 2, 3, 4, 5, 6] ∧
+      h2.inScope (.write 0 0 0 9) = true ∧ h2.step (.write 0 0 0 9) = .ok h3 ∧
+      h3.view 0 = some ⟨2, 3, [9, 7, 7, 7, 7, 7]⟩ ∧ h3.ext 0 = some [1, 2, 3, 4, 5, 6] ∧
+      h3.step (.destroy 0) = .ok h4 ∧ h4.slots 0 = none ∧ h4.slots 1 = some ⟨2, 3, some 1, true⟩ ∧
+      h4.bufs 2 = .live [9, 7, 7, 7, 7, 7] :=
+  ⟨_, _, _, _, rfl, by decide, by decide, rfl, by decide, by decide, by decide, by decide, by decide, rfl,
+   by decide, by decide, rfl, by decide, by decide, rfl⟩
 
 end Pops
